@@ -1,5 +1,7 @@
 import logging
 import os
+import shutil
+import tempfile
 from typing import List, Optional
 
 from aw_core.dirs import get_data_dir
@@ -35,14 +37,24 @@ def check_for_migration(datastore: AbstractStorage):
         # Migrate from peewee v2
         peewee_db_v2 = detect_db_files(data_dir, peewee_name, 2)
         if len(peewee_db_v2) > 0:
-            peewee_v2_to_sqlite_v1(datastore)
+            # The legacy store upgrades the schema of the files it opens (auto_migrate adds the
+            # bucket data column to files written before it existed), so it is given a scratch
+            # copy to read from: the legacy file itself is never written to.
+            legacy_path = os.path.join(data_dir, peewee_name + ".v2.db")
+            with tempfile.TemporaryDirectory() as scratch_dir:
+                scratch_path = os.path.join(scratch_dir, os.path.basename(legacy_path))
+                if os.path.isfile(legacy_path):
+                    shutil.copyfile(legacy_path, scratch_path)
+                    peewee_v2_to_sqlite_v1(datastore, scratch_path)
+                else:
+                    peewee_v2_to_sqlite_v1(datastore)
 
 
-def peewee_v2_to_sqlite_v1(datastore):
+def peewee_v2_to_sqlite_v1(datastore, legacy_filepath: Optional[str] = None):
     logger.info("Migrating database from peewee v2 to sqlite v1")
     from .storages import PeeweeStorage
 
-    pw_db = PeeweeStorage(datastore.testing)
+    pw_db = PeeweeStorage(datastore.testing, filepath=legacy_filepath)
     # Fetch buckets and events
     buckets = pw_db.buckets()
     # Insert buckets and events to new db
@@ -63,4 +75,5 @@ def peewee_v2_to_sqlite_v1(datastore):
         for event in bucket_events:
             event.id = None
         datastore.insert_many(bucket_id, bucket_events)
+    pw_db.db.close()
     logger.info("Migration of peewee v2 to sqlite v1 finished")
